@@ -189,6 +189,19 @@ example : (fullOrdered wTies .lastMod .all).map (·.2) = [rk 4, rk 3, rk 2, rk 1
 example : followContinue gtbl true wTies .lastMod .all 1 6 [] = fullOrdered wTies .lastMod .all := by decide
 example : followContinue gtbl true wTies .created .tagA 2 6 [] = fullOrdered wTies .created .tagA := by decide
 
+/-- a world where sort times come from content files (FileInfo.Time of the indexed camliContent file;
+a file that has not reached the index yet does not count) and where the constraint is restricted by
+node type – all tied at −5 ns -/
+def wContent : List PN :=
+  [⟨rk 1, none, false, false, [-9], true, some ⟨-9, some (-5), true⟩⟩, ⟨rk 2, none, true, false, [-5, -6], true, none⟩,
+   ⟨rk 3, none, false, false, [-5], true, some ⟨-5, some 77, false⟩⟩, ⟨rk 4, none, true, false, [-5], false, none⟩]
+
+example : WorldOK gtbl wContent := ⟨by decide, by decide⟩
+example : (fullOrdered wContent .created .nodeType).map (·.2) = [rk 3, rk 2, rk 1] := by decide
+example : followContinue gtbl true wContent .created .nodeType 1 5 [] = fullOrdered wContent .created .nodeType := by decide
+example : followContinue gtbl true wContent .created (.refPrefix [115, 104, 97, 50, 50, 52, 45, 48]) 2 5 []
+    = fullOrdered wContent .created (.refPrefix [115, 104, 97, 50, 50, 52, 45, 48]) := by decide
+
 /-- before the fix (ParseUint) the first page of a pre-1970 list came back forever: three requests,
 three times the same permanode; the repaired parser returns each permanode once -/
 theorem C09_old_paging_repeats_counterexample :
